@@ -178,7 +178,9 @@ def run(ctx):
     if not (ctx.thorough or ctx.search):
         head = configs[:]
         rng.shuffle(head)
-        configs = [c for c in configs if name_of(c[0][0]) == name_of(c[1][0])] + head[:500]
+        cffc = {'cf_jacobi', 'fc_jacobi', 'cf_block_jacobi', 'fc_block_jacobi'}
+        configs = [c for c in configs if name_of(c[0][0]) == name_of(c[1][0]) or
+                   (name_of(c[0][0]) in cffc and name_of(c[1][0]) in cffc)] + head[:500]
 
     cases, meta = [], []
     classes = {}
@@ -205,8 +207,11 @@ def run(ctx):
             ctx.case((repr(pre), repr(post), L), L >= 2, sample=dict(case, flag=flag) if len(ctx.samples) < 4 and flag else None)
             ctx.count('flag=%s' % flag)
             if flag and ml is ml3:
-                key = (tuple((name_of(a), (a[1].get('sweep') if isinstance(a, tuple) else None)) for a in pre),
-                       tuple((name_of(a), (a[1].get('sweep') if isinstance(a, tuple) else None)) for a in post),
+                def kk(a):
+                    kw = a[1] if isinstance(a, tuple) else {}
+                    # coarse/fine-ordered smoothers: every (f_iterations, c_iterations) combination is its own class
+                    return (name_of(a), kw.get('sweep'), kw.get('f_iterations'), kw.get('c_iterations'))
+                key = (tuple(kk(a) for a in pre), tuple(kk(a) for a in post),
                        all(kw_equal_except_sweep(a, b) for a, b in zip(pre, post)) if len(pre) == len(post) else None)
                 classes.setdefault(key, (pre, post))
     ctx.corr_relations = ['ml.symmetric_smoothing after change_smoothers == SmoothFlag.flag with the source lists (exact)']
